@@ -414,7 +414,18 @@ def inplace(I, op, a, v):
     r = elementwise(I, op, a, v)
     if tuple(r.tail) != tuple(a.tail):
         I.raise_py("ValueError", "non-broadcastable output operand")
-    a.data = r.data
+    # numpy's in-place operators write into the array's own buffer: views of it (a row handed out earlier, or the array this one is
+    # a view of) see the new numbers -- the nested lists are shared between an array and its views, so they are filled, not replaced
+    def fill(dst, src):
+        for i_ in range(len(dst)):
+            if isinstance(dst[i_], list):
+                fill(dst[i_], src[i_])
+            else:
+                dst[i_] = src[i_]
+    if isinstance(a.data, list) and isinstance(r.data, list) and len(a.data) == len(r.data):
+        fill(a.data, r.data)
+    else:
+        a.data = r.data
     return a
 
 
@@ -565,6 +576,16 @@ def dot(I, a, b):
     if len(sa) == 3 and len(sb) == 2:
         r = mk([dot(I, mk(x), b).data for x in a.data])
         r.tail = (sa[0], sa[1], sb[1])
+        return r
+    if len(sa) == 3 and len(sb) == 3:
+        # matmul semantics (the `@` operator): the leading axis is a batch axis and broadcasts (1 against n)
+        if sa[0] != sb[0] and 1 not in (sa[0], sb[0]):
+            I.raise_py("ValueError", f"matmul: operands could not be broadcast together with shapes {sa} {sb}")
+        if sa[2] != sb[1]:
+            I.raise_py("ValueError", f"matmul: shapes {sa} and {sb} not aligned")
+        nb = max(sa[0], sb[0])
+        r = mk([dot(I, mk(a.data[c if sa[0] > 1 else 0]), mk(b.data[c if sb[0] > 1 else 0])).data for c in range(nb)])
+        r.tail = (nb, sa[1], sb[2])
         return r
     raise Unsupported(f"dot of shapes {sa} {sb}")
 
